@@ -137,8 +137,13 @@ func runC05Kinds(cases []string, out *bufio.Writer, _ []string) {
 						log.Errorf(ctx, tag, "<id:%d>", i)
 					}
 				}
+				h.Write(nil) // zero-length raw writes are accepted like any other and change nothing a reader sees
 				for i := 0; i < nr; i++ {
 					fmt.Fprintf(h, "<id:%d>\n", ne+i)
+					if i == 0 {
+						h.Write([]byte{})
+						h.Write(nil)
+					}
 				}
 			})
 			if p {
